@@ -31,9 +31,11 @@ from harness.c11 import parse_prog, _forms
 RULE = ('case = (program, external cancel instant): timeout programs (cancel at every odd instant '
         'of the lifetime; deadlines and wake-ups are even), timeout programs with task groups of '
         'the model language and of the wider oracle-only language (cancel one tick after every '
-        'instant at which a timer of the uncancelled run is due), and session tasks '
-        '(send_request / send_notification / send_batch / request handler) cancelled at odd '
-        'instants; non-trivial = cancel delivered while the task is alive and (an inner timeout '
+        'instant at which a timer of the uncancelled run is due, and at six loop-iteration '
+        'placements around the moment a member finishes by itself), and session tasks '
+        '(send_request / send_notification / send_batch / request handler, with and without a '
+        'history that lowered the concurrency target) cancelled at odd instants, the '
+        'process_messages task cancelled around a handler\'s completion; non-trivial = cancel delivered while the task is alive and (an inner timeout '
         'had already expired or >=2 blocks or a group was active); distinct = distinct '
         '(program, instant)')
 
@@ -123,6 +125,9 @@ def oracle(p, c, o):
 
 
 # ---------------------------------------------------------------- running programs
+HOOKS = ('pre', 'last', 'soon', 'done', 'done+1', 'done+2')
+
+
 def cancel_instants(p, base, mode):
     if base['res'] in ('Deadlock', 'Livelock'):
         return []
@@ -130,8 +135,18 @@ def cancel_instants(p, base, mode):
     if mode == 'odd':
         return list(range(1, min(end, 120) + 2, 2))
     # one tick after every instant at which something can happen (a timer of the run is due)
-    cs = sorted({w + 1 for w in base['whens'] if 0 <= w < end} | {1})
-    return cs[:40]
+    cs = sorted({w + 1 for w in base['whens'] if 0 <= w < end} | {1})[:40]
+    # ... and, at loop-iteration granularity, around the moment a group member finishes by itself
+    # (the instant is the same for all of them; what differs is whether the member's last step,
+    # the group's bookkeeping of the completion and the joiner's wake-up have happened yet)
+    natural = [(m['finished'], g['gno'], i) for g in base['evs'] if g['kind'] == 'group'
+               for i, m in enumerate(g['members'])
+               if m['cancel_seen'] is None and m['finished'] is not None and m['finished'] <= end]
+    natural.sort()
+    picked = natural[:1] + natural[-1:] if len(natural) > 1 else natural
+    for _f, gno, mno in picked:
+        cs += [('m', gno, mno, hook) for hook in HOOKS]
+    return cs
 
 
 def _work(args):
@@ -158,25 +173,62 @@ def run_impl(ctx, progs, mode, only=None):
     return [x for part in parts for x in part]
 
 
-def case_of(p, c):
+def case_of(p, c, o=None):
     if T.any_node(p, lambda q: q[0] == 'groupx'):
-        return {'program_json': T.to_json(p), 'readable': T.show(p), 'cancel': c}
-    return {'program': T.ser_plain(p), 'forms': _forms(p), 'readable': T.show(p), 'cancel': c}
+        case = {'program_json': T.to_json(p), 'readable': T.show(p), 'cancel': c}
+    else:
+        case = {'program': T.ser_plain(p), 'forms': _forms(p), 'readable': T.show(p), 'cancel': c}
+    if isinstance(c, tuple):
+        # task.cancel() placed relative to a member's own completion: (group entered g-th,
+        # member m, placement); `cancel` is the virtual instant at which that happened
+        case['cancel_at_member_completion'] = {'group': c[1], 'member': c[2], 'placement': c[3]}
+        case['cancel'] = (o or {}).get('cancel_t')
+    return case
+
+
+def cancel_of(case):
+    h = case.get('cancel_at_member_completion')
+    if h:
+        return ('m', h['group'], h['member'], h['placement'])
+    return case.get('cancel')
 
 
 def evaluate(ctx, progs, res, only_cancel=None, mode='odd', use_model=True, tag='flat'):
     allruns = run_impl(ctx, progs, mode, only_cancel)
     flat = [(p, c, o) for p, runs in zip(progs, allruns) for (c, o) in runs]
-    model = ctx.model([T.model_line(p, c) for p, c, _o in flat]) if use_model else None
+    # the model places a cancel at an integer instant, after the completions of that instant have
+    # been booked by the group and before anybody has acted on them: that is placement 'done'.
+    # The other placements differ from it by loop iterations inside one instant (member finished
+    # but not yet booked: 'last', 'soon'; joiner already woken: 'done+1', 'done+2'; member not yet
+    # finished: 'pre') - they are judged by the oracle only.
+
+    def model_cancel(c, o):
+        if not isinstance(c, tuple):
+            return c
+        return o.get('cancel_t') if c[3] == 'done' and o.get('cancel_t') is not None else 'skip'
+    lines, index = [], {}
+    if use_model:
+        for i, (p, c, o) in enumerate(flat):
+            mc = model_cancel(c, o)
+            if mc != 'skip':
+                index[i] = len(lines)
+                lines.append(T.model_line(p, mc))
+    model = ctx.model(lines) if use_model else None
     for i, (p, c, o) in enumerate(flat):
         got = T.fmt_obs(o)
-        case = case_of(p, c)
-        for key, why in oracle(p, c, o):
-            res.violation(key, case, why, impl=got)
-        if model is not None:
-            want = T.align_model(model[i], o)
+        case = case_of(p, c, o)
+        cn = o.get('cancel_t') if isinstance(c, tuple) else c
+        if cn is not None:
+            for key, why in oracle(p, cn, o):
+                res.violation(key, case, why, impl=got)
+        if model is not None and i in index:
+            want = T.align_model(model[index[i]], o)
             if want != got:
                 res.disagreement(case, got, want)
+        if isinstance(c, tuple):
+            res.count(f'{tag}_micro_step_cancels')
+            res.count(f'{tag}_micro_step_cancels_delivered', o.get('deliv', 0))
+            c = cn if cn is not None else -1
         res.count(f'{tag}_runs')
         res.count(f'{tag}_delivered', o.get('deliv', 0))
         res.count('outcome_' + o['res'])
@@ -187,7 +239,7 @@ def evaluate(ctx, progs, res, only_cancel=None, mode='odd', use_model=True, tag=
         res.count('delivered_inside_a_group', int(bool(o.get('deliv')) and in_group))
         if o.get('deliv') and (expired_before or T.n_blocks(p) >= 2 or in_group):
             res.nontrivial((str(case.get('program') or case.get('program_json')),
-                            case.get('forms'), c))
+                            case.get('forms'), str(cancel_of(case))))
         if o.get('deliv') and expired_before:
             res.sample({'program': T.show(p), 'cancel_at': c, 'impl': got})
     res['evaluations'] += len(flat)
@@ -249,7 +301,8 @@ def gen_groupx(r):
 
 # ---------------------------------------------------------------- session tasks
 SESSION_KINDS = ['send_request', 'send_notification', 'send_batch', 'send_batch_notifications',
-                 'handler', 'handler_after_inner_timeout']
+                 'handler', 'handler_after_inner_timeout', 'pump_at_handler_completion']
+PUMP_PLACEMENTS = ('last', 'soon', 'done', 'done+1')
 
 
 def gen_session_case(r):
@@ -258,7 +311,13 @@ def gen_session_case(r):
             'gate': r.choice([None, None, 6, 14, -1]),
             # when the peer's response arrives (-1: never)
             'respond': r.choice([-1, 8, 16]),
-            'work': r.choice([4, 12])}
+            'work': r.choice([4, 12]),
+            # history: the session's concurrency target was lowered before (server: the cost went
+            # over the soft limit; client: a slow round trip made it recalibrate)
+            'lowered': r.random() < 0.4,
+            # pump_at_handler_completion: where, relative to the handler task's completion, the
+            # task running process_messages() is cancelled
+            'placement': r.choice(PUMP_PLACEMENTS)}
 
 
 def run_session_case(repo, case, cancel):
@@ -270,7 +329,8 @@ def run_session_case(repo, case, cancel):
     class Transport:
         """what a session needs of its transport; write() honours a send gate the way the real
         transports do when asyncio has paused writing (send buffer full)"""
-        kind = aiorpcx.SessionKind.CLIENT
+        kind = (aiorpcx.SessionKind.SERVER
+                if case['kind'].startswith(('handler', 'pump')) else aiorpcx.SessionKind.CLIENT)
 
         def __init__(self):
             self.can_send = asyncio.Event()
@@ -301,9 +361,24 @@ def run_session_case(repo, case, cancel):
         tr = Transport()
         handler_task = []
 
+        fire = []
+
         class Session(aiorpcx.RPCSession):
+            # a client recalibrates its outgoing concurrency after every answered request, and
+            # any round trip at all counts as too slow
+            recalibrate_count = 1
+            target_response_time = 0.0
+
             async def handle_request(self, request):
                 handler_task.append(asyncio.current_task())
+                if case['kind'] == 'pump_at_handler_completion':
+                    await curio.sleep(case['work'])
+                    pl = case.get('placement', 'soon')
+                    if pl == 'last':
+                        fire[0]()
+                    elif pl == 'soon':
+                        loop.call_soon(fire[0])
+                    return 'done'
                 if case['kind'] == 'handler_after_inner_timeout':
                     try:
                         async with curio.timeout_after(2):
@@ -321,8 +396,69 @@ def run_session_case(repo, case, cancel):
         elif case['gate'] >= 0:
             loop.call_at(case['gate'], tr.can_send.set)
         kind = case['kind']
+        next_id = 0
+        if case.get('lowered'):
+            if kind.startswith(('handler', 'pump')):
+                # public API: account a large cost; the incoming concurrency target drops
+                session.bump_cost((session.cost_soft_limit + session.cost_hard_limit) / 2)
+            elif kind in ('send_request', 'send_batch'):
+                # one answered request first: the outgoing concurrency target drops
+                was_set = tr.can_send.is_set()
+                tr.can_send.set()
+                # (an even instant: the deadlines of the task under test stay even, cancels odd)
+                loop.call_later(2, inbox.put_nowait, b'{"jsonrpc":"2.0","result":1,"id":0}')
+                try:
+                    await asyncio.wait_for(session.send_request('warm', []), 50)
+                except Exception:       # noqa
+                    pass
+                next_id = 1
+                if not was_set:
+                    tr.can_send.clear()
+        if kind == 'pump_at_handler_completion':
+            tr.can_send.set()
+            delivered = []
+
+            def do_fire():
+                if not delivered:
+                    delivered.append(not pump.done())
+                    obs['cancel_t'] = int(loop.time())
+                    pump.cancel()
+            fire.append(do_fire)
+            inbox.put_nowait(b'{"jsonrpc":"2.0","method":"work","params":[],"id":7}')
+            for _ in range(10):
+                if handler_task:
+                    break
+                await asyncio.sleep(0)
+            if not handler_task:
+                obs['res'] = 'no-task'
+                pump.cancel()
+                return
+            pl = case.get('placement', 'soon')
+            if pl.startswith('done'):
+                def on_done(_t):
+                    if pl == 'done':
+                        do_fire()
+                    else:
+                        loop.call_soon(do_fire)
+                handler_task[0].add_done_callback(on_done)
+            await asyncio.wait([pump], timeout=200)
+            obs['t'] = int(loop.time())
+            obs['deliv'] = int(bool(delivered and delivered[0]))
+            obs['task_cancelled'] = pump.done() and pump.cancelled()
+            if not pump.done():
+                obs['res'] = 'still-running'
+                obs['pump'] = 'pending'
+                pump.cancel()
+                await asyncio.wait([pump], timeout=200)
+                obs['pump'] = 'cancelled' if pump.done() else 'still-running'
+            elif pump.cancelled():
+                obs['res'] = 'C'
+            elif pump.exception() is not None:
+                obs['res'] = type(pump.exception()).__name__
+            else:
+                obs['res'] = 'ok'
+            return
         if kind.startswith('handler'):
-            tr.kind = aiorpcx.SessionKind.SERVER
             inbox.put_nowait(b'{"jsonrpc":"2.0","method":"work","params":[],"id":7}')
             await asyncio.sleep(0)
             await asyncio.sleep(0)
@@ -330,6 +466,9 @@ def run_session_case(repo, case, cancel):
                 if handler_task:
                     break
                 await asyncio.sleep(0)
+            if not handler_task and case.get('lowered'):
+                # a session over its soft cost limit delays the request before handling it
+                await asyncio.sleep(session.cost_sleep)
             task = handler_task[0] if handler_task else None
         else:
             async def batch(notifications_only):
@@ -345,9 +484,9 @@ def run_session_case(repo, case, cancel):
             task = loop.create_task(coro)
             if case['respond'] >= 0:
                 if kind == 'send_batch':
-                    resp = b'[{"jsonrpc":"2.0","result":5,"id":0}]'
+                    resp = b'[{"jsonrpc":"2.0","result":5,"id":%d}]' % next_id
                 else:
-                    resp = b'{"jsonrpc":"2.0","result":5,"id":0}'
+                    resp = b'{"jsonrpc":"2.0","result":5,"id":%d}' % next_id
                 loop.call_at(case['respond'], inbox.put_nowait, resp)
         if task is None:
             obs['res'] = 'no-task'
@@ -358,7 +497,10 @@ def run_session_case(repo, case, cancel):
             def do_cancel():
                 delivered.append(not task.done())
                 task.cancel()
-            loop.call_at(cancel, do_cancel)
+            # (counted from the instant the task under test was started: 0, or the even instant
+            # at which the warm-up request of a 'lowered' client history was answered)
+            obs['started'] = int(loop.time())
+            loop.call_at(obs['started'] + cancel, do_cancel)
         try:
             await asyncio.wait_for(asyncio.shield(asyncio.wait([task])), 200)
         except asyncio.TimeoutError:
@@ -398,6 +540,11 @@ def session_oracle(case, cancel, o):
         return [('c12:session-pump-hang',
                  f'the task running session.process_messages() (inside the session\'s TaskGroup) '
                  f'was cancelled from outside and never finishes: {o["pump"]}')]
+    if case['kind'] == 'pump_at_handler_completion' and o.get('deliv') and o['res'] == 'still-running':
+        return [('c12:session-cancel-swallowed',
+                 f'the task running session.process_messages() was cancelled at {o.get("cancel_t")}, '
+                 f'in the loop iteration "{case.get("placement")}" of a request handler\'s completion: '
+                 f'the cancellation was swallowed, the task goes on serving')]
     if o['res'] in ('Deadlock', 'Livelock', 'still-running'):
         return [('c12:session-hang', f'{case["kind"]}: the session task never finishes: {o["res"]}')]
     if o.get('deliv') and (o['res'] != 'C' or not o['task_cancelled']):
@@ -415,6 +562,9 @@ def _session_work(args):
         base = run_session_case(repo, case, None)
         end = base.get('t', 40) if base.get('res') not in ('Deadlock', 'Livelock') else 40
         runs = [(None, base)]
+        if case['kind'] == 'pump_at_handler_completion':
+            out.append(runs)        # the placement is the cancel
+            continue
         for cc in range(1, min(end, 40) + 2, 2):
             runs.append((cc, run_session_case(repo, case, cc)))
         out.append(runs)
@@ -466,7 +616,7 @@ def run(ctx):
     evaluate_sessions(ctx, scases, res)
     res['scopes']['session_cases'] = ns
     # task groups: model language, then the wider one
-    ng = (40000 if ctx.tier == "thorough" else 3000) if ctx.deep else 400
+    ng = (30000 if ctx.tier == "thorough" else 3000) if ctx.deep else 400
     gprogs = []
     while len(gprogs) < ng:
         p = T.gen_group(rng, 4)
@@ -474,7 +624,7 @@ def run(ctx):
             gprogs.append(p)
     evaluate(ctx, gprogs, res, mode='events', tag='groups')
     res['scopes']['group_programs'] = ng
-    nx = (40000 if ctx.tier == "thorough" else 3000) if ctx.deep else 400
+    nx = (30000 if ctx.tier == "thorough" else 3000) if ctx.deep else 400
     evaluate(ctx, [gen_groupx(rng) for _ in range(nx)], res, mode='events', use_model=False,
              tag='groupx')
     res['scopes']['wider_group_programs'] = nx
@@ -503,9 +653,9 @@ def replay(ctx, case):
         return res.finish('replay of one recorded session case')
     if 'program_json' in case:
         p = T.from_json(case['program_json'])
-        evaluate(ctx, [p], res, only_cancel=case.get('cancel'), mode='events', use_model=False)
+        evaluate(ctx, [p], res, only_cancel=cancel_of(case), mode='events', use_model=False)
         return res.finish('replay of one recorded case')
     p = parse_prog(case['program'], case.get('forms', ''))
-    evaluate(ctx, [p], res, only_cancel=case.get('cancel'),
+    evaluate(ctx, [p], res, only_cancel=cancel_of(case),
              mode='events' if T.has_group(p) else 'odd')
     return res.finish('replay of one recorded case')
